@@ -2477,6 +2477,14 @@ func (s *Translator) buildExpansionPatternRoot(traversalStepContext TraversalSte
 		unwindSources  = unwindFromClauses(unwindClauses)
 	)
 
+	// The frame whose rows the expansion reads. When the expansion opens a query part that ends in WITH, the frame
+	// before it is the wrapper frame of that part, which is still being defined; the rows are those of the frame
+	// before the wrapper.
+	previousRowFrame := traversalStep.Frame.Previous
+	if validPrevious, hasValidPrevious := s.previousValidFrame(traversalStep.Frame); hasValidPrevious {
+		previousRowFrame = validPrevious
+	}
+
 	// Determine local scope of the primer: the edge and both nodes.
 	primerLocal, primerExternal := partitionConstraintByLocality(
 		expansionModel.PrimerNodeConstraints,
@@ -2499,7 +2507,7 @@ func (s *Translator) buildExpansionPatternRoot(traversalStepContext TraversalSte
 			return pgsql.Query{}, fmt.Errorf("left node is marked as bound but there is no previous frame to reference")
 		}
 
-		boundSeed := newExpansionBoundNodeSeed(seedIdentifier, traversalStep.Frame.Previous, traversalStep.LeftNode.Identifier, seedConstraints)
+		boundSeed := newExpansionBoundNodeSeed(seedIdentifier, previousRowFrame, traversalStep.LeftNode.Identifier, seedConstraints)
 		seed = &boundSeed
 		expansion.UseUnionAll = true
 	} else if seedConstraints != nil || isUnboundSelfLoop(traversalStep) {
@@ -2509,10 +2517,10 @@ func (s *Translator) buildExpansionPatternRoot(traversalStepContext TraversalSte
 
 		// External terms reference a prior CTE (e.g. s0.i0). Cross-join it into the
 		// seed so it is in scope before the traversal primer joins edges.
-		if primerExternal != nil && traversalStep.Frame.Previous != nil {
+		if primerExternal != nil && previousRowFrame != nil {
 			nodeSeed.query.From = append([]pgsql.FromClause{{
 				Source: pgsql.TableReference{
-					Name: pgsql.CompoundIdentifier{traversalStep.Frame.Previous.Binding.Identifier},
+					Name: pgsql.CompoundIdentifier{previousRowFrame.Binding.Identifier},
 				},
 			}}, nodeSeed.query.From...)
 			seed = &nodeSeed
@@ -2525,7 +2533,7 @@ func (s *Translator) buildExpansionPatternRoot(traversalStepContext TraversalSte
 		if seedNeedsUnwind, err := expressionReferencesUnwindBinding(seedConstraints, unwindClauses); err != nil {
 			return pgsql.Query{}, err
 		} else if seedNeedsUnwind {
-			seed.query.From = prependFrameSourceIfMissing(seed.query.From, traversalStep.Frame.Previous)
+			seed.query.From = prependFrameSourceIfMissing(seed.query.From, previousRowFrame)
 			seed.query.From = append(seed.query.From, unwindSources...)
 		}
 	}
@@ -2569,7 +2577,7 @@ func (s *Translator) buildExpansionPatternRoot(traversalStepContext TraversalSte
 	if primerNeedsUnwind, err := expressionReferencesUnwindBinding(expansionModel.EdgeConstraints, unwindClauses); err != nil {
 		return pgsql.Query{}, err
 	} else if primerNeedsUnwind {
-		expansion.PrimerStatement.From = prependFrameSourceIfMissing(expansion.PrimerStatement.From, traversalStep.Frame.Previous)
+		expansion.PrimerStatement.From = prependFrameSourceIfMissing(expansion.PrimerStatement.From, previousRowFrame)
 		expansion.PrimerStatement.From = append(expansion.PrimerStatement.From, unwindSources...)
 	}
 
@@ -2606,9 +2614,11 @@ func (s *Translator) buildExpansionPatternRoot(traversalStepContext TraversalSte
 
 	var previousProjectionFrameID pgsql.Identifier
 
-	// The current query part may not have a frame associated with it if is a single part query component
-	if traversalStep.Frame.Previous != nil && (s.query.CurrentPart().Frame == nil || traversalStep.Frame.Previous.Binding.Identifier != s.query.CurrentPart().Frame.Binding.Identifier) {
-		previousProjectionFrameID = traversalStep.Frame.Previous.Binding.Identifier
+	// The current query part may not have a frame associated with it if is a single part query component. When it
+	// has one and the expansion opens the part, the frame before the expansion is the part's wrapper frame, which is
+	// still being defined: the rows carried through the projection are those of the frame before the wrapper.
+	if previousFrame, hasPreviousFrame := s.previousValidFrame(traversalStep.Frame); hasPreviousFrame {
+		previousProjectionFrameID = previousFrame.Binding.Identifier
 		expansion.ProjectionStatement.From = append(expansion.ProjectionStatement.From, pgsql.FromClause{
 			Source: pgsql.TableReference{
 				Name:    pgsql.CompoundIdentifier{previousProjectionFrameID},
